@@ -99,6 +99,7 @@ type State struct {
 	nInstr     int
 	nTrans     int
 	mainDone   bool
+	undecided  bool // a branch on this path was taken although the solver could not decide its feasibility
 
 	// model satisfying pc (nil if unknown)
 	model *Model
@@ -129,6 +130,7 @@ func (st *State) Clone() *State {
 		nInstr:    st.nInstr,
 		nTrans:    st.nTrans,
 		mainDone:  st.mainDone,
+		undecided: st.undecided,
 		model:     st.model,
 	}
 	copy(n.heap, st.heap)
